@@ -278,6 +278,7 @@ class C02(core.PropertyCheck):
         import gen_guards
         try:
             gen_guards.write()
+            gen_guards.write_handlers()
         except Exception as e:  # translator broken: reported as a broken tie, then searched
             return [f"gen_guards: {type(e).__name__}: {e}"]
         return []
@@ -286,6 +287,11 @@ class C02(core.PropertyCheck):
         for i in range(budget):
             if i % 6 == 5:
                 yield self.gen_walk_case(rng)
+                continue
+            if i % 12 == 4:
+                # handler kernel: the open-directive stack handed to the real TabsSelectorHandler.scan_for_pattern
+                names = ["tabs", "tab", "procedure", "step", "note", "tabs", "procedure"]
+                yield {"kind": "scan", "stack": [rng.choice(names) for _ in range(rng.choice([0, 1, 2, 3, 4, 5, 7, 9, 12]))]}
                 continue
             files = {"index.txt": gen_page(rng)}
             for k in range(rng.randint(0, 2)):
@@ -321,6 +327,10 @@ class C02(core.PropertyCheck):
         return {"kind": "walk", "pages": [[tree(0) for _ in range(rng.randint(0, 3))] for _ in range(rng.randint(1, 3))]}
 
     def shrink_candidates(self, case):
+        if case["kind"] == "scan":
+            for i in range(len(case["stack"])):
+                yield {**case, "stack": case["stack"][:i] + case["stack"][i + 1:]}
+            return
         if case["kind"] != "project":
             return
         files = case["files"]
@@ -365,6 +375,23 @@ class C02(core.PropertyCheck):
         return pages
 
     def run_impl(self, case):
+        if case["kind"] == "scan":
+            import collections
+            import types
+            from snooty import postprocess
+            from snooty.n import FileId
+            h = postprocess.TabsSelectorHandler.__new__(postprocess.TabsSelectorHandler)
+            diags = collections.defaultdict(list)
+            ctx = types.SimpleNamespace(diagnostics=diags)
+            postprocess.TabsSelectorHandler.__init__(h, ctx)
+            h.scanned_pattern = list(case["stack"])
+            fs = types.SimpleNamespace(current=FileId("index.txt"), root=FileId("index.txt"))
+            node = n.Directive((3,), [], "", "procedure", [], {})
+            try:
+                h.scan_for_pattern(fs, node)
+            except Exception as e:
+                return {"exc": type(e).__name__, "where": "TabsSelectorHandler.scan_for_pattern", "msg": str(e)[:80]}
+            return {"exc": None, "ok": len(diags[FileId("index.txt")]) > 0}
         if case["kind"] == "walk":
             import threading
             from snooty.eventparser import EventParser
@@ -419,6 +446,8 @@ class C02(core.PropertyCheck):
 
     # ---- model (event walk only)
     def model_request(self, case):
+        if case["kind"] == "scan":
+            return {"op": "c02.scan", "stack": case["stack"]}
         if case["kind"] != "walk":
             # no model run for projects; an (empty) request makes `compare` see the monitor's findings
             return {"op": "c02.walk", "pages": []}
@@ -437,6 +466,10 @@ class C02(core.PropertyCheck):
         return {"op": "c02.walk", "pages": [{"file": fid.as_posix(), "ast": enc(ast)} for fid, ast in pages]}
 
     def compare(self, case, model, impl):
+        if case["kind"] == "scan":
+            want = model.get("ok") if "ok" in model else "exc:" + model.get("exc", "?")
+            got = impl.get("ok") if not impl.get("exc") else "exc:" + impl["exc"]
+            return None if want == got else f"scan_for_pattern on {case['stack']}: model {want} impl {got}"
         if case["kind"] != "walk":
             # the hypothesis of theorem handler_stack_discipline observed on the real handlers. Not a C02 violation by
             # itself (nothing raised): a broken tie, after which the framework searches for an input that does raise.
@@ -454,6 +487,10 @@ class C02(core.PropertyCheck):
 
     # ---- oracle
     def oracle(self, case, impl):
+        if case["kind"] == "scan":
+            if impl.get("exc"):
+                return f"postprocessing raised {impl['exc']} at {impl['where']} (open directives {' > '.join(case['stack'])})"
+            return None
         if case["kind"] == "walk":
             if impl["exc"]:
                 return f"event walk raised {impl['exc']}"
@@ -476,12 +513,16 @@ class C02(core.PropertyCheck):
     def nontrivial_key(self, case, impl):
         if case["kind"] == "walk":
             return json.dumps(case)
+        if case["kind"] == "scan":
+            return json.dumps(case) if len(case["stack"]) >= 3 else None
         return json.dumps(case, sort_keys=True) if ".. " in "".join(case["files"].values()) else None
 
     def branch_tags(self, case, model, impl):
         tags = [case["kind"]]
         if impl.get("exc"):
             tags.append(f"exc:{impl['exc']}@{impl.get('where')}:{impl.get('line')}:{impl.get('msg', '')[:40]}")
+        if case["kind"] == "scan" and impl.get("ok"):
+            tags.append("scan:pattern-found")
         if impl.get("parse_exc"):
             tags.append("parse_exc:" + impl["parse_exc"])
         if case["kind"] == "project":
